@@ -7,7 +7,7 @@ from .. import cellsdrv as CD, geoworlds as GW, worlds as W
 
 ID = "C05"
 TITLE = "Index and point selection return the stored values, complete and in order"
-MC = {"quick": [("MC_Cells", "MC_C05.cfg", 8)], "thorough": [("MC_Cells", "MC_C05.cfg", 16)]}
+MC = {"quick": [("MC_Cells", "MC_C05.cfg", 8)], "thorough": [("MC_Cells", "MC_C05_thorough.cfg", 16)]}
 TRACE = ("Trace_Cells", "Trace_Cells.cfg")
 REQUIRED = ["held-memory", "held-file", "held-dask", "held-emsopen", "SelectIndex", "SelectIndexes", "SelectPoints", "ExtractDF", "repeats", "only-first-missing", "only-last-missing", "policy-error", "policy-drop",
             "policy-fill", "points-error-raised", "default-dim", "default-dim-collision", "holes", "Mutate", "after-mutation",
